@@ -82,3 +82,15 @@ Proof.
   - intros t H. cbn in H. repeat (destruct H as [H|H]; [inversion H; subst; apply Z.leb_le; reflexivity|]). destruct H.
   - vm_compute. reflexivity.
 Qed.
+
+(* the exact solution does not depend on how the spike map is presented: any two maps listing the
+   same (time, variable) pairs — in another order, unsorted, with duplicates kept — give the same state,
+   when increments commute *)
+Theorem c12_presentation_independent :
+  forall (St : Type) (phi : Z -> St -> St) (bump : var -> St -> St) (init : St),
+    (forall v w s, bump v (bump w s) = bump w (bump v s)) ->
+  forall (spk spk' : list (var * list Z)) (t : Z),
+    Permutation.Permutation (flat spk) (flat spk') ->
+    spec St phi bump init (merge spk) t = spec St phi bump init (merge spk') t.
+Proof. exact spec_presentation_independent. Qed.
+Print Assumptions c12_presentation_independent.
